@@ -13,6 +13,8 @@ LEAVES = {
     "L": {"n": 3, "traits": {"PartialEq", "Eq", "PartialOrd", "Ord", "Hash", "Clone", "Copy", "Debug", "Default"}},
     "F": {"n": 3, "traits": {"PartialEq", "PartialOrd", "Clone", "Copy", "Debug", "Default"}},   # 2 = NaN
     "S": {"n": 3, "traits": {"PartialEq", "Eq", "PartialOrd", "Ord", "Hash", "Clone", "Debug", "Default"}},
+    # instrumented Clone: `clone` and `clone_from` are observably different and counted
+    "K": {"n": 6, "traits": {"PartialEq", "Clone", "Debug"}},
     # payload types with niches / zero size (C04); no methods are defined for them
     "bool": {"n": 2, "traits": {"PartialEq", "Eq", "PartialOrd", "Ord", "Hash", "Clone", "Copy", "Debug", "Default"}},
     "char": {"n": 3, "traits": {"PartialEq", "Eq", "PartialOrd", "Ord", "Hash", "Clone", "Copy", "Debug", "Default"}},
@@ -71,6 +73,26 @@ pub mod prelude {
     pub struct Zst;
     impl Leaf for Zst { const N: usize = 1; fn d(_: usize) -> Zst { Zst } fn id(&self) -> usize { 0 } }
     impl Leaf for u8 { const N: usize = 3; fn d(i: usize) -> u8 { [0u8, 100, 200][i] } fn id(&self) -> usize { (*self / 100) as usize } }
+
+    pub static CALLS: core::sync::atomic::AtomicUsize = core::sync::atomic::AtomicUsize::new(0);
+    pub fn calls_reset() { CALLS.store(0, core::sync::atomic::Ordering::SeqCst); }
+    pub fn calls() -> usize { CALLS.load(core::sync::atomic::Ordering::SeqCst) }
+    fn bump() { CALLS.fetch_add(1, core::sync::atomic::Ordering::SeqCst); }
+    /// value in {0,1}, tag in {0,1,2}: `clone` resets the tag, `clone_from` records whether the
+    /// destination already held the source's value, so the two (and their operand order) differ observably.
+    #[derive(Debug, PartialEq)]
+    pub struct K(pub u8, pub u8);
+    impl Leaf for K { const N: usize = 6; fn d(i: usize) -> K { K((i / 3) as u8, (i % 3) as u8) } fn id(&self) -> usize { (self.0 * 3 + self.1) as usize } }
+    impl Clone for K {
+        fn clone(&self) -> K { bump(); K(self.0, 0) }
+        fn clone_from(&mut self, s: &K) { bump(); let t = if self.0 == s.0 { 1 } else { 2 }; self.0 = s.0; self.1 = t; }
+    }
+    pub fn eq_m_K(a: &K, b: &K) -> bool { a.0 == b.0 }
+    pub fn cmp_m_K(a: &K, b: &K) -> Ordering { a.0.cmp(&b.0) }
+    pub fn pcmp_m_K(a: &K, b: &K) -> Option<Ordering> { a.0.partial_cmp(&b.0) }
+    pub fn hash_m_K<H: Hasher>(a: &K, h: &mut H) { h.write_u8(a.0); }
+    pub fn clone_m_K(a: &K) -> K { bump(); K(1 - a.0, 2) }
+    pub fn dbg_m_K(a: &K, f: &mut fmt::Formatter<'_>) -> fmt::Result { write!(f, "k{}", a.0) }
 
     pub fn ord3(o: Ordering) -> &'static str { match o { Ordering::Less => "lt", Ordering::Equal => "eq", Ordering::Greater => "gt" } }
     pub fn oord3(o: Option<Ordering>) -> &'static str { match o { Some(o) => ord3(o), None => "none" } }
@@ -131,7 +153,7 @@ pub mod prelude {
 use prelude::*;
 '''
 
-METHOD_LEAVES = ["L", "F", "S"]
+METHOD_LEAVES = ["L", "F", "S", "K"]
 
 
 def leaf_table_code():
@@ -163,6 +185,14 @@ def leaf_table_code():
             out.append(f'''
     for i in 0..{n} {{ let a = {ty}::d(i);
         println!("[\\"hashv\\",\\"{ty}\\",{{}},{{}}]", i, js(&rec(&a))); }}''')
+        if "Clone" in tr:
+            out.append(f'''
+    for i in 0..{n} {{ let a = <{ty} as Leaf>::d(i);
+        println!("[\\"clonev\\",\\"{ty}\\",{{}},{{}}]", i, Clone::clone(&a).id());
+        println!("[\\"methv\\",\\"clone\\",{mid},{{}},{{}}]", i, clone_m_{ty}(&a).id());
+        for j in 0..{n} {{ let mut x = <{ty} as Leaf>::d(i); let y = <{ty} as Leaf>::d(j); Clone::clone_from(&mut x, &y);
+            println!("[\\"clonef\\",\\"{ty}\\",{{}},{{}},{{}}]", i, j, x.id()); }}
+    }}''')
         out.append(f'''
     for i in 0..{n} {{ let a = {ty}::d(i); let mut r = Rec::default(); hash_m_{ty}(&a, &mut r);
         println!("[\\"methh\\",\\"hash\\",{mid},{{}},{{}}]", i, js(&r.0)); }}''')
